@@ -253,7 +253,8 @@ def worker_env(stage, variant='plain', xdg=None, extra=None):
     env.setdefault('PYTHONHASHSEED', '0')
     env['XDG_CACHE_HOME'] = xdg or os.path.join(scratch_dir(), 'xdg')
     env['MPLBACKEND'] = 'Agg'
-    env['OMP_NUM_THREADS'] = env.get('VERIF_OMP_THREADS', '2')
+    env['OMP_NUM_THREADS'] = env.get('VERIF_OMP_THREADS', '1')
+    env['OMP_WAIT_POLICY'] = 'passive'
     env['OPENBLAS_NUM_THREADS'] = '1'
     env['MKL_NUM_THREADS'] = '1'
     env.update(variant_env(variant))
